@@ -480,10 +480,10 @@ func c16CheckPayment(p *paymentsdb.MPPayment) error {
 		return errors.New("nil payment / nil creation info")
 	}
 	var (
-		sent, fees                   lnwire.MilliSatoshi
+		sent, fees                    lnwire.MilliSatoshi
 		inflight, settled, htlcFailed bool
-		nInflight                    int
-		seen                         = make(map[uint64]bool)
+		nInflight                     int
+		seen                          = make(map[uint64]bool)
 	)
 	for _, h := range p.HTLCs {
 		if seen[h.AttemptID] {
